@@ -48,11 +48,101 @@ def tyOk (limit : Nat) : RTy → Bool
       | _ => false) && tyOk limit v
   | .result t e => tyOk limit t && tyOk limit e
   | .wrap w t => w != .phantom && w != .weak && tyOk limit t
-  | .named _ args => args.isEmpty
+  | .named _ args => tyOkL limit args
   | .param _ => false
 def tyOkL (limit : Nat) : List RTy → Bool
   | [] => true
   | t :: ts => tyOk limit t && tyOkL limit ts
+end
+
+mutual
+/-- the same for the field types of a generic item: type parameters are allowed (they are replaced by `tyOk` arguments) -/
+def tyOkP (limit : Nat) (ps : List Str) : RTy → Bool
+  | .prim r => (primClass r).isSome
+  | .option t | .vec t | .slice t | .set t | .range t => tyOkP limit ps t
+  | .arr t n => decide (n ≤ limit) && tyOkP limit ps t
+  | .tuple ts => tyOkPL limit ps ts
+  | .map k v => (match k with
+      | .prim r => (match primClass r with
+        | some (.int _ _ _) | some .string | some .char => true
+        | _ => false)
+      | _ => false) && tyOkP limit ps v
+  | .result t e => tyOkP limit ps t && tyOkP limit ps e
+  | .wrap w t => w != .phantom && w != .weak && tyOkP limit ps t
+  | .named _ args => tyOkPL limit ps args
+  | .param n => ps.contains n
+def tyOkPL (limit : Nat) (ps : List Str) : List RTy → Bool
+  | [] => true
+  | t :: ts => tyOkP limit ps t && tyOkPL limit ps ts
+end
+
+mutual
+/-- a type without parameters is in particular one with -/
+theorem tyOkP_of_tyOk (limit : Nat) (ps : List Str) : ∀ (t : RTy), tyOk limit t = true → tyOkP limit ps t = true
+  | .prim r, h => by simpa [tyOk, tyOkP] using h
+  | .option t, h | .vec t, h | .slice t, h | .set t, h | .range t, h => by
+    simp only [tyOk] at h; simp only [tyOkP]; exact tyOkP_of_tyOk limit ps t h
+  | .arr t n, h => by
+    simp only [tyOk, Bool.and_eq_true] at h; simp only [tyOkP, Bool.and_eq_true]; exact ⟨h.1, tyOkP_of_tyOk limit ps t h.2⟩
+  | .tuple ts, h => by simp only [tyOk] at h; simp only [tyOkP]; exact tyOkPL_of_tyOkL limit ps ts h
+  | .map k v, h => by
+    simp only [tyOk, Bool.and_eq_true] at h; simp only [tyOkP, Bool.and_eq_true]; exact ⟨h.1, tyOkP_of_tyOk limit ps v h.2⟩
+  | .result t e, h => by
+    simp only [tyOk, Bool.and_eq_true] at h; simp only [tyOkP, Bool.and_eq_true]
+    exact ⟨tyOkP_of_tyOk limit ps t h.1, tyOkP_of_tyOk limit ps e h.2⟩
+  | .wrap w t, h => by
+    simp only [tyOk, Bool.and_eq_true] at h; simp only [tyOkP, Bool.and_eq_true]; exact ⟨h.1, tyOkP_of_tyOk limit ps t h.2⟩
+  | .named _ args, h => by simp only [tyOk] at h; simp only [tyOkP]; exact tyOkPL_of_tyOkL limit ps args h
+  | .param _, h => by simp [tyOk] at h
+theorem tyOkPL_of_tyOkL (limit : Nat) (ps : List Str) : ∀ (ts : List RTy), tyOkL limit ts = true → tyOkPL limit ps ts = true
+  | [], _ => by simp [tyOkPL]
+  | t :: ts, h => by
+    simp only [tyOkL, Bool.and_eq_true] at h; simp only [tyOkPL, Bool.and_eq_true]
+    exact ⟨tyOkP_of_tyOk limit ps t h.1, tyOkPL_of_tyOkL limit ps ts h.2⟩
+end
+
+theorem tyOkL_mem {limit : Nat} : ∀ {ts : List RTy}, tyOkL limit ts = true → ∀ t ∈ ts, tyOk limit t = true
+  | [], _, t, hm => by cases hm
+  | x :: xs, h, t, hm => by
+    simp only [tyOkL, Bool.and_eq_true] at h
+    rcases List.mem_cons.mp hm with rfl | hm
+    · exact h.1
+    · exact tyOkL_mem h.2 t hm
+
+mutual
+/-- replacing the parameters by closed types closes the type -/
+theorem tyOk_subst (limit : Nat) (σ : List (Str × RTy)) (hσ : ∀ p ∈ σ, tyOk limit p.2 = true) (ps : List Str) (hcl : ∀ n ∈ ps, (σ.find? (·.1 = n)).isSome) :
+    ∀ (t : RTy), tyOkP limit ps t = true → tyOk limit (RTy.subst σ t) = true
+  | .prim r, h => by simpa [tyOk, tyOkP, RTy.subst] using h
+  | .option t, h | .vec t, h | .slice t, h | .set t, h | .range t, h => by
+    simp only [tyOkP] at h; simp only [RTy.subst, tyOk]; exact tyOk_subst limit σ hσ ps hcl t h
+  | .arr t n, h => by
+    simp only [tyOkP, Bool.and_eq_true] at h; simp only [RTy.subst, tyOk, Bool.and_eq_true]; exact ⟨h.1, tyOk_subst limit σ hσ ps hcl t h.2⟩
+  | .tuple ts, h => by simp only [tyOkP] at h; simp only [RTy.subst, tyOk]; exact tyOkL_subst limit σ hσ ps hcl ts h
+  | .map k v, h => by
+    simp only [tyOkP, Bool.and_eq_true] at h
+    obtain ⟨hk, hv⟩ := h
+    cases k <;> simp at hk
+    simp only [RTy.subst, tyOk, Bool.and_eq_true]
+    exact ⟨hk, tyOk_subst limit σ hσ ps hcl v hv⟩
+  | .result t e, h => by
+    simp only [tyOkP, Bool.and_eq_true] at h; simp only [RTy.subst, tyOk, Bool.and_eq_true]
+    exact ⟨tyOk_subst limit σ hσ ps hcl t h.1, tyOk_subst limit σ hσ ps hcl e h.2⟩
+  | .wrap w t, h => by
+    simp only [tyOkP, Bool.and_eq_true] at h; simp only [RTy.subst, tyOk, Bool.and_eq_true]; exact ⟨h.1, tyOk_subst limit σ hσ ps hcl t h.2⟩
+  | .named _ args, h => by simp only [tyOkP] at h; simp only [RTy.subst, tyOk]; exact tyOkL_subst limit σ hσ ps hcl args h
+  | .param n, h => by
+    simp only [tyOkP, List.contains_iff_mem] at h
+    simp only [RTy.subst]
+    cases hf : σ.find? (·.1 = n) with
+    | none => have := hcl n h; simp [hf] at this
+    | some p => simpa using hσ p (List.mem_of_find?_eq_some hf)
+theorem tyOkL_subst (limit : Nat) (σ : List (Str × RTy)) (hσ : ∀ p ∈ σ, tyOk limit p.2 = true) (ps : List Str) (hcl : ∀ n ∈ ps, (σ.find? (·.1 = n)).isSome) :
+    ∀ (ts : List RTy), tyOkPL limit ps ts = true → tyOkL limit (RTy.substL σ ts) = true
+  | [], _ => by simp [RTy.substL, tyOkL]
+  | t :: ts, h => by
+    simp only [tyOkPL, Bool.and_eq_true] at h; simp only [RTy.substL, tyOkL, Bool.and_eq_true]
+    exact ⟨tyOk_subst limit σ hσ ps hcl t h.1, tyOkL_subst limit σ hσ ps hcl ts h.2⟩
 end
 
 /-- strip the transparent wrappers at the head -/
